@@ -2,7 +2,7 @@
 import struct
 
 import framework as F
-from props.c03 import set_value, group_value, chan_config, rs_cfg, calcfg, load_table
+from props.c03 import set_value, group_value, chan_config, rs_cfg, calcfg, load_table, load_table_guided
 
 TAG = b"SUPLA"
 
@@ -46,7 +46,7 @@ class C12(F.Spec):
                    "MQTT 'recalibrate' command topics are outside 'server message' (DESIGN.md O5)"]
 
     def cases(self, rng, tier):
-        self.rows, self.disp = load_table()
+        self.rows, self.disp = load_table_guided()
         n = 150 if tier == "quick" else 2000
         # witness of the recorded finding, every run
         yield F.Case("witness-enter-cfgmode", ["board relay2", "init", "msg 460 " + calcfg(3, 0, 9000, 1, 0, b"").hex(), "adv 100"],
@@ -55,6 +55,8 @@ class C12(F.Spec):
             yield self.gen_server(rng, i)
         for i in range(120 if tier == "quick" else 1200):
             yield self.gen_buttons(rng, i)
+        for c in self.gen_anycall(rng, tier):
+            yield c
 
     def gen_server(self, rng, i):
         board = rng.choice(["relay2", "relay8", "rs1", "rs2", "rs3", "rs4", "mixed"])
@@ -106,6 +108,51 @@ class C12(F.Spec):
                 ops.append("adv %d" % rng.choice([10, 200, 1500]))
         return F.Case("srv%d-%s" % (i, board), ops, {"tags": ["kind:server", "board:" + board], "board": board, "kind": "server"})
 
+    def gen_anycall(self, rng, tier):
+        """Every call id the receive path knows, in each payload size it accepts, with a payload that reads as an authorised
+        enter-configuration / recalibrate request when looked at through TSD_DeviceCalCfgRequest (and random payloads):
+        'no other server message starts configuration mode or alters calibration'."""
+        rows = dict(self.rows)
+        if not rows:
+            return
+        skip = {30, 70, 460}        # version error / registration result end the connection (C04); 460 is the request itself
+        k = 0
+        for cid in sorted(rows):
+            if cid in skip:
+                continue
+            kind, a, alloc = rows[cid]
+            if kind == "exact":
+                sizes = list(a)
+            elif kind == "valid":
+                main, item, mx, fo, fw = a[:5]
+                sizes = [main, main - item * mx]
+            elif kind == "noData":
+                sizes = [0]
+            else:
+                sizes = [1, 8, 40, 208]
+            for n in sizes:
+                for rep in range(1 if tier == "quick" else 6):
+                    board = rng.choice(["relay2", "rs1", "rs2", "rs3", "mixed"])
+                    ops = ["board " + board, "init"]
+                    if board.startswith("rs"):
+                        for j in range(int(board[2:])):
+                            ops += ["rstimes %d 3000 3000 0 0" % j, "rspos %d 5000 0" % j]
+                    for cmd in ([9000, 8000] if rep % 2 == 0 else [8000, 9000]):
+                        ch = rng.choice([0, 0, 2]) if cmd == 8000 else rng.choice([0, 1, 255])
+                        over = calcfg(rng.choice([0, 1, 3]), ch, cmd, 1, rng.choice([0, 1000]) if cmd == 8000 else 0,
+                                      struct.pack("<ii", 2000, 2000) if rng.random() < .5 else b"")
+                        if rep >= 3:
+                            over = bytes(rng.getrandbits(8) for _ in range(8)) + over[8:]
+                        pl = (over + bytes(rng.getrandbits(8) for _ in range(max(0, n - len(over)))))[:n]
+                        if kind == "valid" and n >= fo + fw and not (fo < 21 <= n):
+                            cnt = (n - (main - item * mx)) // max(item, 1)
+                            b = bytearray(pl); b[fo:fo + fw] = cnt.to_bytes(fw, "little"); pl = bytes(b)
+                        ops.append("msg %d %s" % (cid, pl.hex() if pl else "-"))
+                        ops.append("adv 100")
+                    k += 1
+                    yield F.Case("anycall%d-%d-%d-%s" % (k, cid, n, board), ops,
+                                 {"tags": ["kind:anycall", "board:" + board, "call:%d" % cid], "board": board, "kind": "server"})
+
     def gen_buttons(self, rng, i):
         board = rng.choice(["relay2", "relay4", "rs1", "rs2"])
         # input 0 is the configuration button; input 1 is a plain button
@@ -114,7 +161,24 @@ class C12(F.Spec):
         typ0 = rng.choice([2, 2, 2, 4])          # the configuration button is monostable or bistable
         ops = ["board " + board, "inflags 0 %d" % f0, "intype 0 %d" % typ0, "inlevel 9 1", "inlevel 10 1", "init", "inlog 1", "adv 1000"]
         pin = 9 if rng.random() < .7 else 10
-        g = rng.choice(["hold", "hold", "toggles"])
+        g = rng.choice(["hold", "hold", "toggles", "slowtoggles"])
+        if g == "slowtoggles":
+            # ten or more toggles in all, but never ten in quick succession: a pause of 3..30 s separates two short runs. In half of
+            # the cases the 32-bit microsecond counter wraps inside the pause, at least 2 s after the last toggle before it.
+            n1, n2 = rng.choice([(9, 1), (9, 3), (5, 5), (8, 9), (9, 9)])
+            pause = rng.choice([3000, 5000, 8000, 20000, 30000])
+            pre = 1000
+            for _ in range(n1):
+                ops += ["input %d 0" % pin, "adv 150", "input %d 1" % pin, "adv 150"]
+                pre += 300
+            ops.append("adv %d" % pause)
+            for _ in range(n2):
+                ops += ["input %d 0" % pin, "adv 150", "input %d 1" % pin, "adv 150"]
+            ops.append("adv 2500")
+            if rng.random() < .6:
+                ops = ["boot %d" % (4294967296 - (pre + rng.randint(2100, pause - 200)) * 1000 - rng.randint(0, 999))] + ops
+            return F.Case("btn%d-%s" % (i, board), ops, {"tags": ["kind:buttons", "gesture:" + g], "board": board, "kind": "buttons",
+                                                         "pin": pin, "f0": f0, "typ0": typ0, "gesture": ("slowtoggles", n1, n2, pause)})
         if g == "hold":
             ms = rng.choice([1000, 3000, 4500, 4900, 5200, 6000, 7000])
             ops += ["input %d 0" % pin, "adv %d" % ms, "input %d 1" % pin, "adv 1500"]
@@ -195,6 +259,12 @@ class C12(F.Spec):
                 return [F.Finding("enter-cfgmode-frees-running-srpc",
                                   "authorised ENTER_CFG_MODE: supla_esp_cfgmode_start() frees the srpc instance from inside its own "
                                   "remote-call callback; srpc_iterate continues on freed memory (ASan heap-use-after-free)")]
+            if "heap-use-after-free" in err and "supla_esp_cfgmode_start" in err and not any(o.startswith("input ") for o in case.ops):
+                # the same abort, but no authorised enter-configuration request (and no button) is part of the case: configuration
+                # mode was started by some other server message
+                msgs = [o[:60] for o in case.ops if o.startswith("msg ")]
+                return [F.Finding("cfgmode-without-authorisation", "configuration mode was started (and the run aborted inside it) "
+                                  "although none of the messages is an authorised enter-configuration request: %s" % msgs[-3:])]
             return [F.Finding("crash", "implementation aborted (rc=%s): %s" % (rc, err[-900:]))]
         raw = case.meta.get("raw_impl") or []
         fs = []
@@ -235,6 +305,10 @@ class C12(F.Spec):
                                             "'unauthorised' (104)" % (op[:60], res)))
                 if fact:
                     fs.append(F.Finding("settings-erased-by-server-message", "flash/factory reset after '%s'" % op[:60]))
+                if t[0] == "msg" and t[1] not in ("460", "110", "115", "690", "682") and not entered and \
+                        [x for x in calib if x.startswith(("CHG AutoCal", "CHG RsPos"))]:
+                    # (set-value commands move a shutter and a channel configuration with new times resets it by design)
+                    fs.append(F.Finding("calibration-altered-by-other-message", "'%s' changed %s" % (op[:60], calib[:2])))
                 if t[0] == "msg" and t[1] == "460" and calib and not authorised_recal and not entered:
                     fs.append(F.Finding("calibration-altered-without-authorisation", "'%s' changed %s" % (op[:60], calib[:2])))
             else:
@@ -248,6 +322,7 @@ class C12(F.Spec):
             # derive the gestures from the ops: holds (ms with the pin low) and press counts per pin
             typ0 = case.meta.get("typ0") or next((int(o.split()[2]) for o in case.ops if o.startswith("intype 0 ")), 2)
             holds, presses, down_at, now = {}, {}, {}, 0
+            counted = []        # times (ms) of the state changes of the configuration button that count as toggles
             for op in case.ops:
                 t = op.split()
                 if t[0] == "adv":
@@ -257,14 +332,22 @@ class C12(F.Spec):
                     if lvl == 0:
                         down_at[pin] = now
                         presses[pin] = presses.get(pin, 0) + 1
+                        if pin == 9:
+                            counted.append(now)
                     elif pin in down_at:
                         holds[pin] = max(holds.get(pin, 0), now - down_at.pop(pin))
                         if pin == 9 and typ0 != 2:
                             presses[pin] = presses.get(pin, 0) + 1        # a bistable button counts every change
+                            counted.append(now)
             for pin, t0 in down_at.items():
                 holds[pin] = max(holds.get(pin, 0), now - t0)
             cfg_hold = holds.get(9, 0) >= 4900 and typ0 == 2          # input 0 (pin 9) is the configuration button
-            cfg_toggles = presses.get(9, 0) >= 10
+            # "in quick succession": each within 2 s of the one before (200 ms of tolerance for the debouncing)
+            run = best = 0
+            for j, tm in enumerate(counted):
+                run = run + 1 if j and tm - counted[j - 1] < 2200 else 1
+                best = max(best, run)
+            cfg_toggles = best >= 10
             if entered and not cfg_hold and not cfg_toggles:
                 fs.append(F.Finding("cfgmode-without-gesture", "cfg mode entered; longest hold on the cfg button %d ms, %d presses; "
                                     "other buttons: %s" % (holds.get(9, 0), presses.get(9, 0), {k: v for k, v in holds.items() if k != 9})))
@@ -328,7 +411,14 @@ class C12(F.Spec):
         except C.BuildError as e:
             self._boot = (0, [])
             return [("boot decision: user_init = model", False, "drv_boot does not build: " + str(e)[-800:])]
-        return [("boot decision: user_init = model", not self._boot_diff, self._boot_diff[0] if self._boot_diff else "")]
+        out = [("boot decision: user_init = model", not self._boot_diff, self._boot_diff[0] if self._boot_diff else "")]
+        # theorem c12_toggle_window_is_elapsed_time is about the subtracting form of the 2 s window test: the source must have it
+        import os, re
+        src = re.sub(r"\s+", " ", open(os.path.join(C.REPO, "src/user/supla_esp_input.c")).read())
+        needle = "if ((system_get_time() - input_cfg->last_state_change >= 2000 * 1000)) { input_cfg->click_counter = 1;"
+        out.append(("toggle window: 'system_get_time() - last_state_change >= 2000 * 1000' (C12.B3)", needle in src,
+                    "" if needle in src else "supla_esp_input_legacy_state_change_handling: the window test is no longer the subtracting form"))
+        return out
 
     def extra_findings(self, tier, rng):
         if getattr(self, "_boot", None) is None:
